@@ -1,1 +1,173 @@
-From FS Require Import Sx.
+(* C13 — Copy preserves the tree like cp -a, under every option combination.
+   Only the property theorems (closed by [exact]) and their [Print Assumptions]; the model of
+   /repo/copy is Model/Copier.v, the relation "the copy is the source" is [tree_iso] /
+   [faithful_dent] of Model/CopySpec.v, proofs in Proofs/Copy*P.v (see Properties/C15.v for the
+   reading guide of [copy_top], [overlay_all], [wf_src], [wf_fs]).
+
+   [overlay_all] is used here only to NAME what the call does: the landing path of the source
+   ([xr_landings]), whether the landing path was an existing directory when the copy proper
+   started ([xr_merged]: such a directory is merged into and keeps its own metadata, only its
+   type and timestamp are claimed), and the set of paths the call may create ([xr_paths]).
+   [faithful_dent o ms sd d]: d has the type of sd (a socket becomes an empty regular file),
+   the requested mode or sd's permission + setuid/setgid/sticky bits (symlinks keep theirs),
+   the requested owner or sd's, the requested time or sd's nanosecond mtime, sd's device number,
+   symlink target verbatim, xattrs and bytes.  [iso_at ... rel]: at the relative path rel the
+   source and the destination below the landing path both have nothing, or the destination
+   entry is a faithful copy of the source entry.
+   The theorems are proved for ONE literal source (no wildcards), link groups included
+   ([links_consistent]: the names of one multiply-linked regular file carry one dentry);
+   hence the suffix _partial.  See props/C13.json. *)
+From Coq Require Import List NArith Bool.
+From FS Require Import Sx Model.Path Model.SymMode Model.Copier Model.CopySpec
+  Proofs.CopierP Proofs.CopyOpsP Proofs.CopyTopP Proofs.CopyThmP Proofs.CopyFaithP Proofs.CopyEx.
+Import ListNotations.
+Open Scope N_scope.
+Open Scope bool_scope.
+
+(* For every well-formed source (link groups included) and empty destination:
+   tree_iso o ms merged sn L (result) = at every relative path the destination entry is a
+   faithful copy of the source entry or both have nothing, AND two copied regular files share
+   an inode iff their sources do.  (_partial: one literal source; wildcards are C15's.)
+   [landing_clear]: the directories MkdirAll makes for the dst argument do not lie below the
+   landing path unless the source has them too.  (It was violated by dst = "a/x/.." before
+   ensureDstPath learnt to ignore a final ".." - finding dst-dotdot-extra-directory, repaired,
+   see ex_dotdot_repaired; it is kept as a hypothesis because it is not derived from dst here.) *)
+Theorem copy_into_empty_faithful_partial :
+  forall o sroot, wf_src sroot -> links_consistent sroot ->
+  forall fs src dst r ms sn L m,
+    o_wild o = false -> empty_dst fs ->
+    overlay_all o sroot (view_of_fs fs) src dst = inl r ->
+    parse_of o = Some ms -> s_resolve sroot (rooted src) = inl sn ->
+    xr_landings r = [L] -> xr_merged r = [m] -> landing_clear r sn L ->
+    exists st', copy_top o sel_all sroot fs src dst = (st', None) /\
+                tree_iso o ms m sn L (view_of_fs (c_fs st')).
+Proof. exact copy_into_empty_faithful_proof. Qed.
+
+(* On ANY destination: every copied entry (the landing directory itself excepted when it is
+   merged into) carries the requested owner, the requested octal or symbolic mode (symlinks
+   excepted), the requested time and the source's type; every directory the call made above the
+   target carries the requested owner and time (after fixCreatedParentDirs). *)
+Theorem copy_options_applied_partial :
+  forall o sroot, wf_src sroot -> links_consistent sroot ->
+  forall fs src dst r ms sn L m,
+    o_wild o = false -> wf_fs fs ->
+    overlay_all o sroot (view_of_fs fs) src dst = inl r ->
+    parse_of o = Some ms -> s_resolve sroot (rooted src) = inl sn ->
+    xr_landings r = [L] -> xr_merged r = [m] ->
+    exists st', copy_top o sel_all sroot fs src dst = (st', None) /\
+      (forall rel s, s_lookup sn rel = Some s -> (rel = [] -> m = false) ->
+         exists i d, view_of_fs (c_fs st') (L ++ rel) = Some (i, d) /\
+           d_uid d = fst (info_owner o (sdent s)) /\ d_gid d = snd (info_owner o (sdent s)) /\
+           (is_lnk (sdent s) = false -> perm12 d = info_mode o ms (sdent s)) /\
+           d_mtime d = info_time o (sdent s) /\ ftype d = copy_type (sdent s)) /\
+      (forall p e, xr_view r p = Some e -> x_mk e = true ->
+         exists i d, view_of_fs (c_fs st') p = Some (i, d) /\
+           (forall u g, o_chown o = Some (u, g) -> d_uid d = u /\ d_gid d = g) /\
+           (forall t, o_utime o = Some t -> d_mtime d = t)).
+Proof. exact copy_options_applied_partial_proof. Qed.
+
+(* The change notifier: the notifications for non-directories are, in order, exactly the
+   destination paths of the non-directories of the source ([nd_paths]: one entry per source
+   non-directory), and a directory is only ever notified with the path of a source directory. *)
+Theorem notifier_exact_partial :
+  forall o sroot, wf_src sroot -> links_consistent sroot ->
+  forall fs src dst r ms sn L,
+    o_wild o = false -> wf_fs fs ->
+    overlay_all o sroot (view_of_fs fs) src dst = inl r ->
+    parse_of o = Some ms -> s_resolve sroot (rooted src) = inl sn -> xr_landings r = [L] ->
+    exists st', copy_top o sel_all sroot fs src dst = (st', None) /\
+      map fst (filter (fun pb => negb (snd pb)) (rev (c_notifs st'))) = nd_paths L sn /\
+      (forall q, In q (nd_paths L sn) <->
+                 exists rel s, q = L ++ rel /\ s_lookup sn rel = Some s /\ is_dir (sdent s) = false) /\
+      (forall q, In (q, true) (rev (c_notifs st')) ->
+                 exists rel s, q = L ++ rel /\ s_lookup sn rel = Some s /\ is_dir (sdent s) = true).
+Proof. exact notifier_exact_partial_proof. Qed.
+
+Print Assumptions copy_into_empty_faithful_partial.
+Print Assumptions copy_options_applied_partial.
+Print Assumptions notifier_exact_partial.
+
+(* ---- non-vacuity ---- *)
+Example ex_hypotheses :
+  wf_src ex_src /\ links_consistent ex_src /\ empty_dst fs_empty /\ wf_src ex_src_links /\ links_consistent ex_src_links.
+Proof.
+  exact (conj (proj1 ex_src_wf) (conj (links_consistent_nolinks _ (proj2 ex_src_wf))
+        (conj (conj fs_empty_wf fs_empty_empty) ex_src_links_wf))).
+Qed.
+
+Definition ex_rels : list (list (list N)) :=
+  [ []; [n_d]; [n_d; n_f]; [n_d; n_l]; [n_p]; [n_x]; [n_d; n_x]; [n_f] ].
+
+(* the whole source into the empty destination: lands on the root (merged: the root keeps its
+   metadata), everything below is a faithful copy: setgid directory with owner 7:8 and an
+   xattr, 0640 file with ns mtime, symlink, fifo *)
+Example ex_whole_tree :
+  match overlay_all o_plain ex_src (view_of_fs fs_empty) [] s_slash,
+        copy_top o_plain sel_all ex_src fs_empty [] s_slash with
+  | inl r, (st', None) =>
+      (match xr_landings r, xr_merged r with
+       | [L], [m] => path_eqb L [] && m && tree_iso_b o_plain None m ex_src L (view_of_fs (c_fs st')) ex_rels
+       | _, _ => false end) &&
+      (match lstat (c_fs st') [n_d], lstat (c_fs st') [n_d; n_f], lstat (c_fs st') [n_d; n_l], lstat (c_fs st') [n_p] with
+       | Some d, Some f, Some l, Some p =>
+           N.eqb (d_mode d) (S_IFDIR + 1517) && N.eqb (d_uid d) 7 && N.eqb (d_gid d) 8 && N.eqb (d_mtime d) 1000 &&
+           N.eqb (d_mode f) (S_IFREG + 416) && N.eqb (d_mtime f) 5000000001 && bytes_eqb (d_content f) [104; 105] &&
+           N.eqb (d_mode l) (S_IFLNK + 511) && bytes_eqb (d_target l) n_f && N.eqb (d_mode p) (S_IFIFO + 420)
+       | _, _, _, _ => false end) &&
+      (match rev (c_notifs st') with
+       | [(q1, true); (q2, false); (q3, false); (q4, false)] =>
+           path_eqb q1 [n_d] && path_eqb q2 [n_d; n_f] && path_eqb q3 [n_d; n_l] && path_eqb q4 [n_p]
+       | _ => false end)
+  | _, _ => false
+  end = true.
+Proof. vm_compute. reflexivity. Qed.
+
+(* sub-directory d to the not yet existing x/y with chown 100:200, mode 0700, utime 42:
+   MkdirAll makes x (owner and time as requested), the copy lands at x/y, every entry has the
+   requested owner, mode (the symlink keeps 0777) and time *)
+Example ex_options :
+  match overlay_all o_all ex_src (view_of_fs fs_empty) n_d [120; 47; 121],
+        copy_top o_all sel_all ex_src fs_empty n_d [120; 47; 121] with
+  | inl r, (st', None) =>
+      (match xr_landings r, xr_merged r, s_lookup ex_src [n_d] with
+       | [L], [m], Some sn => path_eqb L [n_x; n_y] && negb m &&
+                              tree_iso_b o_all None m sn L (view_of_fs (c_fs st')) [ []; [n_f]; [n_l]; [n_x] ]
+       | _, _, _ => false end) &&
+      (match lstat (c_fs st') [n_x], lstat (c_fs st') [n_x; n_y], lstat (c_fs st') [n_x; n_y; n_f], lstat (c_fs st') [n_x; n_y; n_l] with
+       | Some x, Some y, Some f, Some l =>
+           N.eqb (d_uid x) 100 && N.eqb (d_gid x) 200 && N.eqb (d_mtime x) 42 &&
+           N.eqb (d_mode y) (S_IFDIR + 448) && N.eqb (d_uid y) 100 && N.eqb (d_mtime y) 42 &&
+           N.eqb (d_mode f) (S_IFREG + 448) && N.eqb (d_gid f) 200 && N.eqb (d_mtime f) 42 &&
+           N.eqb (d_mode l) (S_IFLNK + 511) && N.eqb (d_uid l) 100 && N.eqb (d_mtime l) 42
+       | _, _, _, _ => false end)
+  | _, _ => false
+  end = true.
+Proof. vm_compute. reflexivity. Qed.
+
+(* the former finding dst-dotdot-extra-directory, repaired: dst = "a/x/.." with dir-contents
+   copies the contents of d into a and no longer creates a/x (ensureDstPath ignores a final "..") *)
+Example ex_dotdot_repaired :
+  match copy_top o_dc sel_all ex_src fs_empty n_d [97; 47; 120; 47; 46; 46] with
+  | (st', None) =>
+      (match lstat (c_fs st') [n_a; n_f], lstat (c_fs st') [n_a; n_x] with
+       | Some f, None => is_reg f | _, _ => false end)
+  | _ => false
+  end = true.
+Proof. vm_compute. reflexivity. Qed.
+
+(* link groups: d/f, d/g and h are three names of one source inode; into the empty destination
+   the three copies share one inode, d/x has its own: tree_iso_b including the partition *)
+Example ex_link_group :
+  match overlay_all o_plain ex_src_links (view_of_fs fs_empty) [] s_slash,
+        copy_top o_plain sel_all ex_src_links fs_empty [] s_slash with
+  | inl r, (st', None) =>
+      (match xr_landings r, xr_merged r with
+       | [L], [m] => tree_iso_b o_plain None m ex_src_links L (view_of_fs (c_fs st'))
+                       [ []; [n_d]; [n_d; n_f]; [n_d; n_g]; [n_d; n_x]; [n_h]; [n_x] ]
+       | _, _ => false end) &&
+      (match names (c_fs st') [n_d; n_f], names (c_fs st') [n_d; n_g], names (c_fs st') [n_h], names (c_fs st') [n_d; n_x] with
+       | Some a, Some b, Some c, Some d => N.eqb a b && N.eqb b c && negb (N.eqb a d)
+       | _, _, _, _ => false end)
+  | _, _ => false
+  end = true.
+Proof. vm_compute. reflexivity. Qed.
